@@ -16,6 +16,12 @@ struct F {
 const INTS: [i64; 7] = [0, 1, 2, 3, 5, -1, 10];
 const STRS: [&str; 8] = ["a", "b", "ab", "B", "", " x", "é", "10"];
 
+const JSONS: [&str; 12] = [
+    "{\"k\":5,\"m\":[1,2,3],\"o\":{\"k\":\"x\"}}", "{\"k\":\"five\",\"m\":[],\"o\":null}", "[10,20,{\"k\":1}]", "7", "\"txt\"",
+    "{\"k\":1}", "{\"k\":10,\"m\":[5]}", "{\"m\":[3,2,1],\"o\":{\"k\":\"y\",\"m\":[0]}}", "{}", "[]", "{\"k\":true,\"o\":{\"k\":2}}", "[1]",
+];
+const PATHS: [&str; 9] = ["k", "m:0", "m:1", "o/k", "o", "m", "@0", "@2", "$"];
+
 fn pool_val(ty: char, g: &mut Gen) -> Val {
     match ty {
         'I' => Val::Int(INTS[g.below(INTS.len())]),
@@ -39,6 +45,10 @@ fn gen_schema(g: &mut Gen) -> Schema {
             let dv = if md == 'd' { Some(pool_val(ty, g)) } else { None };
             let then = if md == 'n' && g.chance(1, 5) { Some(pool_val(ty, g)) } else { None };
             fs.push(F { ty, to: 0, md, dv, late: false, then });
+        }
+        if g.chance(1, 2) {
+            // a Json field (never with a default; a null Json value panics the engine: candidate #6, left to C14)
+            fs.push(F { ty: 'J', to: 0, md: if g.chance(1, 2) { 'n' } else { 'r' }, dv: None, late: false, then: None });
         }
         for _ in 0..g.below(3) {
             fs.push(F { ty: 'R', to: g.below(n), md: if g.chance(1, 2) { 'n' } else { 'r' }, dv: None, late: false, then: None });
@@ -111,6 +121,26 @@ fn gen_node(cx: &mut Ctx, ent: usize, depth: usize, root_alias: bool, paging_ok:
     }
     for (k, j, _) in &selected {
         cx.lines.push(format!("qs n={} key={} f={}", n, k, j));
+    }
+    for (j, f) in e.iter().enumerate() {
+        if f.ty == 'J' {
+            if cx.g.chance(1, 4) {
+                cx.lines.push(format!("qs n={} key=f{} f={}", n, j, j));
+            }
+            for _ in 0..cx.g.below(3) {
+                cx.alias_n += 1;
+                cx.lines.push(format!("qj n={} key=j{} f={} path={}", n, cx.alias_n, j, PATHS[cx.g.below(PATHS.len())]));
+            }
+            if cx.g.chance(1, 4) {
+                let v = match cx.g.below(4) {
+                    0 => Val::Null,
+                    1 => Val::Str(["x", "five", "y"][cx.g.below(3)].to_string()),
+                    _ => Val::Int([0, 1, 2, 5, 10][cx.g.below(5)]),
+                };
+                let op = if v == Val::Null { ["eq", "ne"][cx.g.below(2)] } else { ["eq", "ne", "lt", "le", "gt", "ge"][cx.g.below(6)] };
+                cx.lines.push(format!("qf n={} name=f{} sel=0 f={} op={} v={} jpath={}", n, j, j, op, v.show(), PATHS[cx.g.below(PATHS.len())]));
+            }
+        }
     }
     if cx.g.chance(1, 3) {
         let key = if cx.g.chance(1, 2) { "id".to_string() } else { "rid".to_string() };
@@ -312,6 +342,7 @@ pub fn gen(seed: u64, n_cases: usize, out: &str, tier: &str) {
             let mut vals = vec![format!("0:I{}", id)];
             seen[e][0].push(Val::Int(id as i64));
             let mut refs = vec![];
+            let mut jsons: Vec<String> = vec![];
             for (j, f) in s.ents[e].iter().enumerate().skip(1) {
                 if f.late && !upgraded {
                     continue;
@@ -330,6 +361,11 @@ pub fn gen(seed: u64, n_cases: usize, out: &str, tier: &str) {
                                 seen[e][j].push(v.clone());
                             }
                             vals.push(format!("{}:{}", j, v.show()));
+                        }
+                    }
+                    'J' => {
+                        if f.md == 'r' || g.chance(3, 4) {
+                            jsons.push(format!("{}:{}", j, enc(JSONS[g.below(JSONS.len())])));
                         }
                     }
                     'R' => {
@@ -356,7 +392,11 @@ pub fn gen(seed: u64, n_cases: usize, out: &str, tier: &str) {
                     }
                 }
             }
-            writeln!(w, "row id={} e={} v={} r={}", id, e, vals.join("|"), refs.join("|")).unwrap();
+            if jsons.is_empty() {
+                writeln!(w, "row id={} e={} v={} r={}", id, e, vals.join("|"), refs.join("|")).unwrap();
+            } else {
+                writeln!(w, "row id={} e={} v={} r={} j={}", id, e, vals.join("|"), refs.join("|"), jsons.join("|")).unwrap();
+            }
             by_ent[e].push(id);
         }
         if !upgraded {
